@@ -352,13 +352,23 @@ fn build_model(c: &Value, seed: u64, label: &str) -> M2Model {
         e.position = v.v3();
         e.bone_index = v.u16();
         e.texture_index = v.u16();
-        e.lifetime = v.f();
-        e.emission_rate = v.f();
-        e.gravity = v.f();
-        e.max_initial_rotation = v.f();
+        e.parent_emitter = v.u16();
+        e.geometry_model_unknown = v.u16();
+        e.blending_type = (v.u() % 7) as u8;
+        e.particle_type = (v.u() % 3) as u8;
+        e.head_or_tail = (v.u() % 3) as u8;
+        macro_rules! fl { ($($f:ident),*) => { $( e.$f = v.f(); )* } }
+        fl!(lifetime, emission_rate, emission_area_length, emission_area_width, emission_velocity, min_lifetime, max_lifetime,
+            min_emission_rate, max_emission_rate, min_emission_area_length, max_emission_area_length, min_emission_area_width,
+            max_emission_area_width, min_emission_velocity, max_emission_velocity, position_variation, min_position_variation,
+            max_position_variation, initial_size, min_initial_size, max_initial_size, size_variation, min_size_variation,
+            max_size_variation, horizontal_range, min_horizontal_range, max_horizontal_range, vertical_range, min_vertical_range,
+            max_vertical_range, gravity, min_gravity, max_gravity, initial_velocity, min_initial_velocity, max_initial_velocity,
+            speed_variation, min_speed_variation, max_speed_variation, rotation_speed, min_rotation_speed, max_rotation_speed,
+            initial_rotation, min_initial_rotation, max_initial_rotation, color_animation_speed, color_median_time,
+            lifespan_unused, emission_rate_unused, unknown_2);
         e.mid_point_color = v.col();
         e.unknown_1 = v.u();
-        e.unknown_2 = v.f();
         let rs = &mut r.particle_animation_data;
         use ParticleTrackType as P;
         e.emission_speed_animation = ab!(kf, &mut v, &mut ctr, rs, ParticleAnimationRaw, emitter_index, i, P::EmissionSpeed, v.f());
@@ -515,8 +525,15 @@ fn x_particles(ps: &[M2ParticleEmitter]) -> String {
 fn views_tok(es: &[EmbeddedSkinRaw]) -> Value {
     same(&es.iter().map(|e| (e.model_view.get(40..44).map(|s| s.to_vec()), e.indices.clone(), e.triangles.clone(), e.properties.clone(), e.batches.clone())).collect::<Vec<_>>())
 }
-fn views_sub_tok(es: &[EmbeddedSkinRaw]) -> Value {
-    same(&es.iter().map(|e| e.submeshes.clone()).collect::<Vec<_>>())
+fn views_sub_tok(es: &[EmbeddedSkinRaw], vn: u32) -> Value {
+    // full token: the raw records; cross-version token: the fields the 32-byte (Vanilla) and the 48-byte (TBC) record share
+    let size = if vn < 260 { 32 } else { 48 };
+    let common: Vec<Vec<Vec<u8>>> = es.iter().map(|e| e.submeshes.chunks_exact(size).map(|r| {
+        let mut c = r[0..16].to_vec();
+        if size == 32 { c.extend_from_slice(&r[16..32]); } else { c.extend_from_slice(&r[20..32]); c.extend_from_slice(&r[44..48]); }
+        c
+    }).collect()).collect();
+    pair(ptok(&es.iter().map(|e| e.submeshes.clone()).collect::<Vec<_>>()), ptok(&(common, es.iter().map(|e| e.submeshes.len() % size).collect::<Vec<_>>())))
 }
 
 fn model_tokens(m: &M2Model) -> Value {
@@ -550,7 +567,7 @@ fn model_tokens(m: &M2Model) -> Value {
     put("attachment_lookup_table", same(&r.attachment_lookup_table));
     put("camera_lookup_table", same(&r.camera_lookup_table));
     put("views", views_tok(&r.embedded_skins));
-    put("views_submeshes", views_sub_tok(&r.embedded_skins));
+    put("views_submeshes", views_sub_tok(&r.embedded_skins, m.header.version));
     put("particle_emitters", pair(ptok(&m.particle_emitters), x_particles(&m.particle_emitters)));
     put("particle_emitters+", same(&r.particle_animation_data));
     put("ribbon_emitters", pair(ptok(&m.ribbon_emitters), x_ribbons(&m.ribbon_emitters)));
